@@ -19,7 +19,7 @@ pub fn plan_summary(p: &Plan) -> serde_json::Value {
             Step::Seal(_) => seals += 1,
             Step::Restart => restarts += 1,
             Step::Empty(n) => seals += *n as usize,
-            Step::Teleport(_) => {}
+            Step::Teleport(_) | Step::Admit(_) | Step::Include(_) => {}
         }
     }
     json!({"net_sel": p.cfg.net, "steps": p.steps.len(), "batches": batches, "planned_txs": txs, "seals": seals, "restarts": restarts})
